@@ -7,6 +7,7 @@ StepAct ==
   \/ Is("rdeof") /\ RdEof
   \/ Is("rderr") /\ RdErr
   \/ Is("limit") /\ Limit(Ev.what, Ev.rel, Ev.accepted, Ev.bufOk)
+  \/ Is("limitsame") /\ LimitSame(Ev.what, Ev.rel, Ev.whole, Ev.pieces)
   \/ Is("end")   /\ (written = 0 \/ eof) /\ UNCHANGED fvars
 Next == TraceNext(ResetAct, StepAct, UNCHANGED fvars)
 Init == TraceInit /\ FInit
